@@ -187,3 +187,50 @@ def observe(par, kind='vars', seqkind='list', as_str=False, extra=''):
         return obs
     obs['r'] = [[_num(x) for x in r] for r in rows]
     return obs
+
+
+# ---------------------------------------------------------------------------------------------
+# batch lists (next-batches / previous-batches)
+
+_BL = '(<dtml-var batch-start-index>,<dtml-var batch-end-index>,<dtml-var batch-size>)'
+SRC_LISTS = ('<dtml-in seq start=st end=en size=sz orphan=orp overlap=ov>'
+             '<dtml-if sequence-start>P<dtml-if previous-sequence><dtml-in previous-batches mapping>' + _BL + '</dtml-in></dtml-if>;</dtml-if>'
+             'W<dtml-var sequence-number>;'
+             '<dtml-if sequence-end>N<dtml-if next-sequence><dtml-in next-batches mapping>' + _BL + '</dtml-in></dtml-if>;</dtml-if>'
+             '</dtml-in>')
+_tl = {}
+_ble = re.compile(r'\((-?\d+),(-?\d+),(-?\d+)\)')
+
+
+def observe_lists(par, as_str=False, seqkind='list'):
+    """render the batch lists of one window; returns {p, w, nb, pb, sizes_ok} or {p, err}"""
+    from DocumentTemplate.DT_HTML import HTML
+    L, start, end, size, orphan, overlap = par
+    t = _tl.get('t')
+    if t is None:
+        t = _tl['t'] = HTML(SRC_LISTS)
+    conv = str if as_str else int
+    seq = list(range(1, L + 1))
+    if seqkind == 'tuple':
+        seq = tuple(seq)
+    try:
+        out = t(seq=seq, st=conv(start), en=conv(end), sz=conv(size), orp=conv(orphan), ov=conv(overlap))
+    except Exception as e:  # noqa
+        return {'p': list(par), 'err': type(e).__name__ + ': ' + str(e)[:80]}
+    w = [int(x) for x in re.findall(r'W(\d+);', out)]
+    mp = re.search(r'P([^;]*);', out)
+    mn = re.search(r'N([^;]*);', out)
+    if not w or mp is None or mn is None:
+        return {'p': list(par), 'err': 'unparsable output: %r' % out[:120]}
+    ok = True
+
+    def lst(txt):
+        nonlocal ok
+        r = []
+        for a, b, c in _ble.findall(txt):
+            a, b, c = int(a), int(b), int(c)
+            if c != b + 1 - a:
+                ok = False
+            r.append([a + 1, b + 1])
+        return r
+    return {'p': list(par), 'w': [w[0], w[-1]], 'nb': lst(mn.group(1)), 'pb': lst(mp.group(1)), 'sizes_ok': ok}
